@@ -48,6 +48,7 @@ def run(project, rep):
     rep.run(N.n_r6_placeholder, project, rep)
     rep.run(N.n_r7_routing, project, rep)
     rep.run(N.n_r7c_service_urls, project, rep)
+    rep.run(N.n_r14_msgset_wiring, project, rep)
     rep.run(N.n_r8_cookies, project, rep)
     rep.run(N.n_r9_constructor_params, project, rep)
     rep.run(N.n_r11_url_fixed, project, rep)
